@@ -4,7 +4,7 @@
 From Coq Require Import NArith ZArith List Bool.
 Import ListNotations.
 Require Import UV.C07.Model UV.C07.Check UV.C07.Proofs UV.C07.Replay UV.C07.RecordReplay.
-Require UV.C07.RecordProof.
+Require UV.C07.RecordProof UV.C07.RecordProofCyg UV.C07.RecordProofB UV.C07.RecordProofT UV.C07.Range UV.C07.Multi UV.C07.MultiReplay UV.C07.Switch.
 Local Open Scope Z_scope.
 
 (* get_task_ustack's look-ahead list (time filter -t / time=, caller filter -C, `trace`) hands the
@@ -63,6 +63,83 @@ Theorem C07_matches_documented_replay : forall c f, plt_free_all c -> no_switch_
 Proof. exact replay_matches_select. Qed.
 Print Assumptions C07_matches_documented_replay.
 
+(* -r alone: report/graph/dump --chrome, replay, script and the raw dump show exactly the records whose
+   timestamp lies in [start, stop] (ends included), for every depth-consistent recording with non-decreasing
+   timestamps nested less deep than -D (in particular the recording of every call forest). *)
+Theorem C07_time_range_selects_window : forall c rs,
+  Range.range_only c -> Range.sorted rs -> dcons 0 rs -> Forall (fun r => r_depth r < gdepth c) rs ->
+  map ob_rt (run_std c rs) = map Range.shown_rec (filter (fun r => Range.in_window c (r_time r)) rs).
+Proof. exact Range.range_std_window. Qed.
+Print Assumptions C07_time_range_selects_window.
+
+Theorem C07_time_range_replay : forall c rs,
+  Range.range_only c -> Range.sorted rs -> dcons 0 rs -> Forall (fun r => r_depth r < gdepth c) rs ->
+  map ob_rt (run_rp c rs) = map Range.shown_rec (Range.window c rs)
+  /\ map ob_rt (run_script c rs) = map Range.shown_rec (Range.window c rs).
+Proof. exact Range.range_replay_script. Qed.
+Print Assumptions C07_time_range_replay.
+
+Theorem C07_time_range_raw_dump : forall c rs,
+  Range.range_only c -> Range.sorted rs -> dcons 0 rs -> Forall (fun r => r_depth r < gdepth c) rs ->
+  map ob_rt (run_raw c rs) = map Range.shown_rec (Range.window c rs).
+Proof. exact Range.range_raw. Qed.
+Print Assumptions C07_time_range_raw_dump.
+
+(* several tasks (threads / processes), merged by timestamp with the lowest task index first on ties, one
+   look-ahead list and one filter state per task, fstack_enabled shared: the merge keeps every task's own
+   order; without trace_on/trace_off every task shows in report/graph/dump exactly what it would show alone,
+   i.e. the documented selection of its own forest; script and replay --no-merge read the merged stream like
+   report/graph/dump do. *)
+Theorem C07_merge_keeps_task_order : forall fuel ss t, (total_len ss <= fuel)%nat ->
+  Multi.of_task t (merge fuel ss) = nth t ss [] /\ Forall (fun p => (fst p < length ss)%nat) (merge fuel ss).
+Proof. exact Multi.merge_task. Qed.
+Print Assumptions C07_merge_keeps_task_order.
+
+Theorem C07_tasks_independent : forall c ss t, no_switch_all c -> (t < length ss)%nat ->
+  Multi.of_task t (run_std_m c ss) = run_std c (nth t ss []).
+Proof. exact Multi.tasks_independent. Qed.
+Print Assumptions C07_tasks_independent.
+
+Theorem C07_matches_documented_tasks : forall c fs t, no_switch_all c -> no_range c = true -> (t < length fs)%nat ->
+  Multi.of_task t (run_std_m c (map (flats 0) fs)) = select c (nth t fs []).
+Proof. exact Multi.tasks_match_select. Qed.
+Print Assumptions C07_matches_documented_tasks.
+
+Theorem C07_commands_agree_nomerge_tasks : forall c ss, plt_free_all c -> no_merge c = true ->
+  run_rp_m c ss = run_std_m c ss.
+Proof. exact Multi.nomerge_multi. Qed.
+Print Assumptions C07_commands_agree_nomerge_tasks.
+
+(* replay WITH leaf folding over several tasks (fstack_skip peeks at the globally next record, which may belong
+   to another task): same calls as report/graph/dump, all option sets (trace_on/off, -r included), all
+   depth-consistent task streams; and every task of replay shows the documented selection of its forest. *)
+Theorem C07_commands_agree_replay_tasks : forall c ss, plt_free_all c ->
+  (forall t, dcons0 (pre c (nth t ss []))) -> run_rp_m c ss = run_std_m c ss.
+Proof. exact MultiReplay.replay_multi. Qed.
+Print Assumptions C07_commands_agree_replay_tasks.
+
+Theorem C07_matches_documented_replay_tasks : forall c fs t,
+  plt_free_all c -> no_switch_all c -> no_range c = true -> (t < length fs)%nat ->
+  Multi.of_task t (run_rp_m c (map (flats 0) fs)) = select c (nth t fs []).
+Proof. exact MultiReplay.replay_multi_select. Qed.
+Print Assumptions C07_matches_documented_replay_tasks.
+
+(* trace_on / trace_off (-T f@trace_on, f@trace_off): the calls shown are exactly those the documented switch
+   lets through - one switch along the order of events, touched only by functions that -F/-N let through,
+   the trace_off function itself hidden, the trace_on function shown - for every forest and every option set
+   without depth= / -H whose nesting stays within -D (names of the events; display depths not claimed). *)
+Theorem C07_trace_switch_documented : forall c f,
+  Switch.sw_cfg c -> no_range c = true -> Switch.fheightZ f <= gdepth c ->
+  map ob_n (run_std c (flats 0 f)) = select_sw c f.
+Proof. exact Switch.switch_std. Qed.
+Print Assumptions C07_trace_switch_documented.
+
+Theorem C07_trace_switch_replay : forall c f,
+  Switch.sw_cfg c -> plt_free_all c -> no_range c = true -> Switch.fheightZ f <= gdepth c ->
+  map ob_n (run_rp c (flats 0 f)) = select_sw c f /\ map ob_n (run_script c (flats 0 f)) = select_sw c f.
+Proof. exact Switch.switch_replay. Qed.
+Print Assumptions C07_trace_switch_replay.
+
 (* --no-libcall breaks the agreement: replay tests the symbol type before fstack_entry *)
 Theorem C07_no_libcall_commands_agree_refuted :
   map ob_n (run_rp c_plt (flats 0 f_plt))
@@ -79,24 +156,67 @@ Theorem C07_raw_dump_time_filter_refuted :
 Proof. exact raw_dump_ignores_time_filter. Qed.
 Print Assumptions C07_raw_dump_time_filter_refuted.
 
-(* record time = replay time, UNBOUNDED, for the filter options -F / -N / -D on the -pg shape: for every
-   forest (calls with t0 < t1 < 2^64, nesting <= 1024) libmcount (lazy ENTRY flush included) writes exactly
-   the recording of the selected forest, and replaying that without options shows the same calls, display
-   depths and times as replaying the full recording with the options. *)
+(* record time = replay time, UNBOUNDED, for the options -F / -N / -D / -t on the -pg shape: for every
+   forest whose calls take time, lie inside their caller's interval and do not run exactly the threshold
+   (nesting <= 1024) libmcount (lazy ENTRY flush, time filter on exit) writes exactly the recording of the
+   selected forest, and replaying that without options shows the same calls, display depths and times as
+   replaying the full recording with the options. *)
 Theorem C07_record_writes_selected_forest : forall c f,
-  RecordProof.filter_only c -> RecordProof.wf_forest f -> (RecordProof.fheight f <= 1024)%nat ->
+  RecordProof.filter_only c -> RecordProof.wf_forest c f -> (RecordProof.fheight f <= 1024)%nat ->
   record (to_mcfg c MC.PG) f = flats 0 (flat_map (RecordProof.sel c false 0) f).
 Proof. exact RecordProof.record_is_sel. Qed.
 Print Assumptions C07_record_writes_selected_forest.
 
 Theorem C07_record_equals_replay : forall c f,
   RecordProof.filter_only c -> plt_free_all c -> no_range c = true ->
-  RecordProof.wf_forest f -> (RecordProof.fheight f <= 1024)%nat ->
+  RecordProof.wf_forest c f -> (RecordProof.fheight f <= 1024)%nat ->
   map RecordProof.strip (rec_then_plain c MC.PG f) = map RecordProof.strip (plain_then_opt c f).
 Proof. exact RecordProof.record_equals_replay_filters. Qed.
 Print Assumptions C07_record_equals_replay.
 
-(* the other shared options (-t, time=, -C, trace) and the cygprof shape: exhaustive agreement on a bounded
+(* ... and on the -finstrument-functions shape (every call pushes a frame, rejected ones with NORECORD):
+   both shapes write the same data file, so the same agreement holds. *)
+Theorem C07_record_shape_independent : forall c f,
+  RecordProof.filter_only c -> RecordProof.wf_forest c f -> (RecordProof.fheight f <= 1024)%nat ->
+  record (to_mcfg c MC.CYG) f = record (to_mcfg c MC.PG) f.
+Proof. exact RecordProofCyg.record_shape_independent. Qed.
+Print Assumptions C07_record_shape_independent.
+
+Theorem C07_record_equals_replay_cygprof : forall c f,
+  RecordProof.filter_only c -> plt_free_all c -> no_range c = true ->
+  RecordProof.wf_forest c f -> (RecordProof.fheight f <= 1024)%nat ->
+  map RecordProof.strip (rec_then_plain c MC.CYG f) = map RecordProof.strip (plain_then_opt c f).
+Proof. exact RecordProofCyg.record_equals_replay_cyg. Qed.
+Print Assumptions C07_record_equals_replay_cygprof.
+
+(* the caller filter -C, the `trace` trigger and -t when no call is hidden by -F/-N/-D (-pg shape): libmcount
+   writes exactly the recording of the forest pruned by replay's look-ahead rule, so recording with the
+   options and replaying the full recording with them show the same events (depths and times included). *)
+Theorem C07_record_writes_pruned_forest : forall c f,
+  RecordProofB.classB c -> RecordProof.wf_forest c f -> (RecordProof.fheight f <= 1024)%nat ->
+  Z.of_nat (RecordProof.fheight f) <= gdepth c ->
+  record (to_mcfg c MC.PG) f = flats 0 (flat_map (tprune c (threshold c)) f).
+Proof. exact RecordProofB.record_is_pruned. Qed.
+Print Assumptions C07_record_writes_pruned_forest.
+
+Theorem C07_record_equals_replay_caller_trace : forall c f,
+  RecordProofB.classB c -> plt_free_all c -> no_range c = true -> RecordProof.wf_forest c f ->
+  (RecordProof.fheight f <= 1024)%nat -> Z.of_nat (RecordProof.fheight f) <= gdepth c ->
+  rec_then_plain c MC.PG f = plain_then_opt c f.
+Proof. exact RecordProofB.record_equals_replay_caller. Qed.
+Print Assumptions C07_record_equals_replay_caller_trace.
+
+(* ... and with time= triggers as well (libmcount's per-frame saved filter.time against replay's per-task
+   stack of time= overrides), every call compared with the threshold in force for it. *)
+Theorem C07_record_equals_replay_time_trigger : forall c f,
+  RecordProofT.classT c -> plt_free_all c -> no_range c = true -> RecordProofT.wfT_forest c f ->
+  (RecordProof.fheight f <= 1024)%nat -> Z.of_nat (RecordProof.fheight f) <= gdepth c ->
+  rec_then_plain c MC.PG f = plain_then_opt c f.
+Proof. exact RecordProofT.record_equals_replay_time. Qed.
+Print Assumptions C07_record_equals_replay_time_trigger.
+
+(* the shared options MIXED (time= / -C / trace together with -F/-N/-D inside the class rr_class_of) and the
+   cygprof shape for time= / -C / trace: exhaustive agreement on a bounded
    domain inside the class rr_class_of
    (no call runs exactly a threshold or zero time, no depth= / trace_on / trace_off, time= never lowers the
    threshold, -C / trace / time= only when nothing is hidden by -F/-N/-D): 21060 + 8900 compared pairs,
